@@ -5,12 +5,12 @@
 /// Check for `assertion`: ""the case fires iff its written condition is true""
 
 #[test]
-fn kani_concrete_playback_c10_k1_eval_l4_14020449344946846367() {
+fn kani_concrete_playback_c10_k1_eval_l4_7540181553520449032() {
     let concrete_vals: std::vec::Vec<std::vec::Vec<u8>> = vec![
         // 1
         vec![1],
-        // 3ul
-        vec![3, 0, 0, 0, 0, 0, 0, 0],
+        // 4ul
+        vec![4, 0, 0, 0, 0, 0, 0, 0],
         // 2
         vec![2],
         // 1
@@ -25,14 +25,14 @@ fn kani_concrete_playback_c10_k1_eval_l4_14020449344946846367() {
         vec![1],
         // 0
         vec![0],
+        // 2
+        vec![2],
         // 1
         vec![1],
         // 1
         vec![1],
         // 0
         vec![0],
-        // 1
-        vec![1],
     ];
     kani::concrete_playback_run(concrete_vals, c10_k1_eval_l4);
 }
